@@ -28,7 +28,7 @@ RULE = ("Hypothesis draws a lattice shape (all-2, mixed, runs of equal sizes at 
         "at least one judged point is not a vertex and the kernel is not "
         "constant; distinct by SHA-1 of the case.")
 NT_FLOOR = 0.5
-BUDGET = {"quick": 1000, "thorough": 6000}
+BUDGET = {"quick": 800, "thorough": 6000}
 ASSUMPTIONS = [
     "with clip_inputs off only in-range points are judged (the layer documents "
     "out-of-range behaviour only through clipping)",
